@@ -461,7 +461,7 @@ func vC18mForEach(isSet bool) {
 	// ---- reference: Map.prototype.forEach over the entries list (24.1.3.5 steps 5-7)
 	ref := &vC18mList{}
 	for k := int64(1); k <= n; k++ {
-		ref.set(k, k)
+		ref.set(k, 10+k)
 	}
 	var want []vC18mVisit
 	for idx := 0; idx < len(ref.key) && len(want) <= maxVisits; idx++ {
@@ -512,7 +512,7 @@ func vC18mForEach(isSet bool) {
 		}
 	}
 	for k := int64(1); k <= n; k++ {
-		set(k, k)
+		set(k, 10+k)
 	}
 	thisArg := r.NewObject()
 	var got []vC18mVisit
@@ -671,8 +671,8 @@ func H_C18_iterObj() {
 	}
 	ref := &vC18mList{}
 	for k := int64(1); k <= n; k++ {
-		set(k, k)
-		ref.set(k, k)
+		set(k, 10+k)
+		ref.set(k, 10+k)
 	}
 	var itv Value
 	if isSet {
